@@ -24,6 +24,7 @@ def answer (line : String) : String :=
   | "P" :: _ => pLine ws
   | "S" :: _ => sLine ws
   | "N" :: _ => nLine ws
+  | "W" :: _ => wLine ws
   | "B" :: _ => bLine ws
   | "L" :: _ => lLine ws
   | "K" :: _ => kLine ws
